@@ -63,7 +63,7 @@ func (w *World) Content(o string) []byte {
 }
 func (w *World) Hex(o string) string { return core.Sha(w.Content(o)) }
 func (w *World) Abstract(hex string) string {
-	for _, o := range []string{"o1", "o2", "o3", "o4", "n1", "n2"} {
+	for _, o := range []string{"o1", "o2", "o3", "o4", "n1", "n2", "z1", "z2"} {
 		if w.Hex(o) == hex {
 			return o
 		}
@@ -189,6 +189,15 @@ func (w *World) NonCanonicalPointerText(o string) string {
 // IsNonCanon: abstract oids named n* are committed with a non-canonical pointer.
 func IsNonCanon(o string) bool { return strings.HasPrefix(o, "n") }
 
+// IsMissized: abstract oids named z* are committed with a pointer in canonical form whose size line
+// does not give the object's length (hand-written or tool-generated pointers).
+func IsMissized(o string) bool { return strings.HasPrefix(o, "z") }
+
+// MissizedPointerText names the right object and a size that is off by 7.
+func (w *World) MissizedPointerText(o string) string {
+	return fmt.Sprintf("version https://git-lfs.github.com/spec/v1\noid sha256:%s\nsize %d\n", w.Hex(o), len(w.Content(o))+7)
+}
+
 // EnsureLocalObject writes the object's bytes into the local store (used when a pointer is staged directly).
 func (w *World) EnsureLocalObject(o string) error {
 	p := gitenv.LocalObjectPath(w.GitDir(), w.Hex(o))
@@ -307,6 +316,13 @@ func (w *World) Commit(b, p, blob string, age int) error {
 				return err
 			}
 			if err := w.Env.WriteFile(file, []byte(w.NonCanonicalPointerText(blob)), 0o644); err != nil {
+				return err
+			}
+		} else if IsMissized(blob) {
+			if err := w.EnsureLocalObject(blob); err != nil {
+				return err
+			}
+			if err := w.Env.WriteFile(file, []byte(w.MissizedPointerText(blob)), 0o644); err != nil {
 				return err
 			}
 		} else if err := w.Env.WriteFile(file, w.Content(blob), 0o644); err != nil {
@@ -488,6 +504,9 @@ func (w *World) Merge(b, o string, tree map[string]string) error {
 			txt := w.PointerText(blob)
 			if IsNonCanon(blob) {
 				txt = w.NonCanonicalPointerText(blob)
+			}
+			if IsMissized(blob) {
+				txt = w.MissizedPointerText(blob)
 			}
 			w.Env.WriteFile(file, []byte(txt), 0o644)
 			if rr := w.Env.Git(w.Clone, "add", "--", PathFile(p)); !rr.OK() {
